@@ -7,10 +7,13 @@ function, `let keep = ...; if keep {..}`): the analysis enumerates abstract path
 booleans plus the facts assumed so far), follows only feasible edges of switches on known flags and intersects the facts of
 all worlds reaching a block.  When the state space exceeds the cap the analysis gives up (`ok == False`) and callers fall
 back to plain dominance."""
+import re
 from .prog import short, place_str, place_fields
 from . import flow as F
 
 CAP = 60000
+WRAP = ("Ok", "Some", "Continue")
+FAIL = ("Err", "None", "Break")
 
 
 class Facts:
@@ -55,6 +58,39 @@ class Facts:
                 return pl
         return pl
 
+    def _through_tuple(self, pl):
+        """`(a, b).0` read back as `a`: a place that projects field i out of a local built as a tuple aggregate"""
+        fn = self.fn
+        flds = [e for e in pl["p"] if isinstance(e, dict) and "f" in e]
+        if len(flds) != 1 or len(pl["p"]) != 1:
+            return pl
+        defs = F._assign_defs(fn).get(pl["l"], [])
+        if len(defs) == 1 and defs[0][1]["rv"]["k"] == "aggr" and defs[0][1]["rv"].get("ak") == "tuple":
+            ops = defs[0][1]["rv"]["ops"]
+            i = flds[0]["f"]
+            if i < len(ops) and ops[i]["k"] in ("copy", "move"):
+                return ops[i]["pl"]
+        return pl
+
+    def _value_of_operand(self, op, env):
+        """structured value (variant / wrap / fail / const) of an operand, unwrapping `(x as Some).0`-style payload reads"""
+        if op["k"] == "const":
+            if op.get("v") in ("true", "false"):
+                return ("const", op["v"] == "true")
+            return None
+        if op["k"] not in ("copy", "move"):
+            return None
+        pl = op["pl"]
+        v = env.get(pl["l"])
+        if v is None:
+            return None
+        if not pl["p"]:
+            return v
+        proj = [e for e in pl["p"] if isinstance(e, dict)]
+        if len(proj) == 2 and len(proj) == len(pl["p"]) and "d" in proj[0] and proj[0]["d"] in WRAP and "f" in proj[1] and v[0] == "wrap":
+            return v[1]
+        return None
+
     def _sym_of_operand(self, op, env):
         if op["k"] == "const":
             if op.get("v") in ("true", "false"):
@@ -63,7 +99,11 @@ class Facts:
         pl = op["pl"]
         if not pl["p"] and pl["l"] in env:
             return env[pl["l"]]
-        cp = self._canon_place(pl)
+        if pl["p"] and pl["l"] in env:
+            v0 = self._value_of_operand(op, env)
+            if v0 is not None and v0[0] in ("const", "atom"):
+                return v0
+        cp = self._canon_place(self._through_tuple(pl))
         pk = self._place_key(cp)
         if pk not in self.atoms:
             # a payload read out of a call's result (`f(..)? == true`, `if let Some(b) = g() { if b ..`) is a fact about that call
@@ -116,9 +156,18 @@ class Facts:
                 # enum returned by an inlined helper) so that a later `match` on it follows only the feasible arm
                 if k == "aggr" and rv.get("ak") == "adt" and rv.get("variant") and (rv.get("adt") or "").startswith("sqlgrep::"):
                     env[l] = ("variant", rv["variant"])
-                elif k == "use" and rv["op"]["k"] in ("copy", "move") and not rv["op"]["pl"]["p"] and \
-                        env.get(rv["op"]["pl"]["l"], (None,))[0] == "variant":
-                    env[l] = env[rv["op"]["pl"]["l"]]
+                elif k == "aggr" and rv.get("ak") == "adt" and rv.get("variant") in WRAP and len(rv["ops"]) == 1 and \
+                        (rv.get("adt") or "").startswith("core::"):
+                    inner = self._value_of_operand(rv["ops"][0], env)
+                    env[l] = ("wrap", inner)
+                elif k == "aggr" and rv.get("ak") == "adt" and rv.get("variant") in FAIL and (rv.get("adt") or "").startswith("core::"):
+                    env[l] = ("fail",)
+                elif k == "use" and rv["op"]["k"] in ("copy", "move"):
+                    v0 = self._value_of_operand(rv["op"], env)
+                    if v0 is not None and v0[0] in ("variant", "wrap", "fail"):
+                        env[l] = v0
+                    else:
+                        env.pop(l, None)
                 elif l in env:
                     env.pop(l, None)
                 continue
@@ -143,6 +192,25 @@ class Facts:
                 key = self._atom("def@%d:%d" % (b, idx), kind="other", bb=b, line=s["line"])
                 env[l] = ("atom", key, True)
         t = fn.blocks[b]["term"]
+        if t["k"] == "call" and t.get("dest") is not None and not t["dest"]["p"] and fn.locals[t["dest"]["l"]]["ty"] != "bool":
+            nm = short(t["func"].get("res_path") or t["func"].get("path") or "")
+            dl = t["dest"]["l"]
+            if nm.endswith("Try>::branch") and t["args"]:
+                v0 = self._value_of_operand(t["args"][0], env)
+                if v0 is not None and v0[0] in ("wrap", "fail"):
+                    env[dl] = v0
+                else:
+                    env.pop(dl, None)
+                return env
+            if nm.endswith("::from_residual"):
+                env[dl] = ("fail",)
+                return env
+            if F.TRANSPARENT.search(nm) and t["args"] and not nm.endswith("Option::take"):
+                # ok_or / map_err / as_ref / cloned ...: Some(x) stays a success carrying x, None / Err stays a failure
+                v0 = self._value_of_operand(t["args"][0], env)
+                if v0 is not None and v0[0] in ("wrap", "fail", "variant") and not re.search(r"::(map|and_then|filter)$", nm):
+                    env[dl] = v0
+                    return env
         if t["k"] == "call" and t.get("dest") is not None and not t["dest"]["p"]:
             dl = t["dest"]["l"]
             if fn.locals[dl]["ty"] == "bool":
@@ -191,6 +259,16 @@ class Facts:
                 if root["p"] and not all(e == "*" for e in root["p"]):
                     break
                 known = env.get(root["l"])
+                if known is not None and known[0] in ("wrap", "fail"):
+                    names_ = {dv: n for dv, n in info[1].get("variants", [])}
+                    want = WRAP if known[0] == "wrap" else FAIL
+                    tg = [tgt for lab, tgt in info[2].items() if lab != "otherwise" and names_.get(lab) in want and tgt in succs]
+                    if tg:
+                        return [(tg[0], env, facts)]
+                    listed_ = [names_.get(l2) for l2 in info[2] if l2 != "otherwise"]
+                    if info[2]["otherwise"] in succs and any(n_ in want and n_ not in listed_ for n_ in names_.values()):
+                        return [(info[2]["otherwise"], env, facts)]
+                    break
                 if known is not None and known[0] == "variant":
                     names_ = {dv: n for dv, n in info[1].get("variants", [])}
                     for lab, tgt in info[2].items():
@@ -264,7 +342,7 @@ class Facts:
     def _liveness(self):
         """live-in sets of bool locals per block (so that the symbolic value of a dead temporary does not keep worlds apart)"""
         fn = self.fn
-        bools = set(l for l, d in enumerate(fn.locals) if d["ty"] == "bool" or d["ty"].startswith("sqlgrep::") or d["ty"].startswith("&sqlgrep::"))
+        bools = set(range(len(fn.locals)))    # all locals: env also holds enum variants and Ok/Some wrappers
         use, deff = {}, {}
 
         def reads(o, acc):
